@@ -1,17 +1,26 @@
 #!/bin/bash
 # usage: validate_seed.sh <seed-dir-with-patch.diff+demo.py> <name>
 # Confirms in a scratch worktree of /repo HEAD: demo passes without the patch, fails with it, test-suite passes with it.
+# Tests that fail in the parallel run are re-run alone once: hypothesis deadlines make unrelated tests flaky on a loaded machine.
 SRC="$1"; NAME="$2"
 WT=/tmp/val_$NAME
 git -C /repo worktree remove --force $WT >/dev/null 2>&1
 git -C /repo worktree add --detach $WT HEAD >/dev/null 2>&1 || { echo "worktree failed"; exit 2; }
 cd $WT
 cp "$SRC/demo.py" demo_seed.py
-/venv/bin/python demo_seed.py >/tmp/val_$NAME.clean.log 2>&1; RC_CLEAN=$?
+PYTHONPATH=$WT /venv/bin/python demo_seed.py >/tmp/val_$NAME.clean.log 2>&1; RC_CLEAN=$?
 git apply "$SRC/patch.diff" || { echo "patch does not apply"; cd /; git -C /repo worktree remove --force $WT; exit 2; }
-/venv/bin/python demo_seed.py >/tmp/val_$NAME.seeded.log 2>&1; RC_SEEDED=$?
-/venv/bin/python -m pytest -q -p no:cacheprovider -n 8 --timeout=900 >/tmp/val_$NAME.tests.log 2>&1; RC_TESTS=$?
+PYTHONPATH=$WT /venv/bin/python demo_seed.py >/tmp/val_$NAME.seeded.log 2>&1; RC_SEEDED=$?
+PYTHONPATH=$WT /venv/bin/python -m pytest -q -p no:cacheprovider -n 8 --timeout=900 >/tmp/val_$NAME.tests.log 2>&1; RC_TESTS=$?
 TESTS="$(tail -1 /tmp/val_$NAME.tests.log)"
+RERUN=""
+if [ $RC_TESTS -ne 0 ]; then
+  IDS=$(grep '^FAILED ' /tmp/val_$NAME.tests.log | awk '{print $2}' | sed 's/\[.*//' | sort -u | tr '\n' ' ')
+  if [ -n "$IDS" ]; then
+    PYTHONPATH=$WT /venv/bin/python -m pytest -q -p no:cacheprovider --timeout=900 $IDS >/tmp/val_$NAME.rerun.log 2>&1; RC_TESTS=$?
+    RERUN=", \"failed_in_parallel_run_rerun_alone\": \"$(tail -1 /tmp/val_$NAME.rerun.log)\""
+  fi
+fi
 cd /
 git -C /repo worktree remove --force $WT
-echo "{\"demo_rc_clean\": $RC_CLEAN, \"demo_rc_seeded\": $RC_SEEDED, \"tests_rc_seeded\": $RC_TESTS, \"tests_summary\": \"$TESTS\", \"repo_head\": \"$(git -C /repo rev-parse --short HEAD)\"}"
+echo "{\"demo_rc_clean\": $RC_CLEAN, \"demo_rc_seeded\": $RC_SEEDED, \"tests_rc_seeded\": $RC_TESTS, \"tests_summary\": \"$TESTS\"$RERUN, \"repo_head\": \"$(git -C /repo rev-parse --short HEAD)\"}"
